@@ -1,2 +1,193 @@
-From Coq Require Import QArith List Bool NArith.
+(** Proofs about protocols and whole histories (C04 + C14). *)
+From Coq Require Import QArith List Bool NArith Lia Lqa.
 From Sim Require Import Integrator Simulator Protocol SimProofs.
+Import ListNotations.
+Open Scope Q_scope.
+
+Section ProtocolProofs.
+  Variables Y P U O : Type.
+  Variable flow : P -> Q -> Y -> Q -> Y.
+  Variable solve_ok : P -> Q -> Y -> Q -> bool.
+  Variable conv : Y -> Y -> bool.
+  Variable pupd : P -> U -> P.
+  Variable yovr : Y -> O -> Y.
+  Variable fx : sim_facts.
+  Hypothesis good : good_facts fx.
+
+  Notation sim := (sim Y P).
+  Notation Inv2 := (Inv2 Y P).
+  Notation run_op := (run_op Y P U O flow solve_ok conv pupd yovr fx).
+  Notation run := (run Y P U O flow solve_ok conv pupd yovr fx).
+  Notation run_strict := (run_strict Y P U O flow solve_ok conv pupd yovr fx).
+  Notation simulate := (simulate Y P flow solve_ok fx).
+  Notation simulate_time_course := (simulate_time_course Y P flow solve_ok fx).
+  Notation update_parameters := (update_parameters Y P U pupd).
+  Notation protocol_loop := (protocol_loop Y P U flow solve_ok pupd fx).
+  Notation protocol_tc_loop := (protocol_tc_loop Y P U flow solve_ok pupd fx).
+  Notation op := (op U O).
+
+  (** ** protocols keep the invariant *)
+  Lemma protocol_loop_inv2 rows : forall s t_start n, Inv2 s -> Inv2 (fst (protocol_loop s t_start n rows)).
+  Proof.
+    induction rows as [|[t_end u] rest IH]; intros s t_start n HI; [exact HI|].
+    cbn [Protocol.protocol_loop].
+    pose proof (simulate_inv2 Y P flow solve_ok fx good (update_parameters s u) (t_start + t_end) (Some n)
+                  (update_parameters_inv2 Y P U pupd s u HI)) as H1.
+    destruct (simulate (update_parameters s u) (t_start + t_end) (Some n)) as [s2 o] eqn:E. cbn [fst] in H1.
+    destruct o; try exact H1.
+    destruct (s_vars s2); [apply IH; exact H1|exact H1].
+  Qed.
+
+  Lemma protocol_tc_loop_inv2 rows : forall s t_start full, Inv2 s -> Inv2 (fst (protocol_tc_loop s t_start full rows)).
+  Proof.
+    induction rows as [|[t_end u] rest IH]; intros s t_start full HI; [exact HI|].
+    cbn [Protocol.protocol_tc_loop].
+    match goal with |- context [simulate_time_course ?a ?b] =>
+      pose proof (simulate_time_course_inv2 Y P flow solve_ok fx good a b
+                    (update_parameters_inv2 Y P U pupd s u HI)) as H1;
+      destruct (simulate_time_course a b) as [s2 o] eqn:E end.
+    cbn [fst] in H1. destruct o; try exact H1.
+    destruct (s_vars s2); [apply IH; exact H1|exact H1].
+  Qed.
+
+  Definition no_steady (o : op) : Prop := match o with OSteady => False | _ => True end.
+
+  Lemma run_op_inv2 s o : no_steady o -> Inv2 s -> Inv2 (fst (run_op s o)).
+  Proof.
+    intros Hns HI. destruct o as [t st|pts|steps n|steps pts rel| |u|ov|]; cbn [Protocol.run_op].
+    - apply simulate_inv2; assumption.
+    - apply simulate_time_course_inv2; assumption.
+    - unfold simulate_protocol. destruct (has_errors Y P s); [exact HI|].
+      destruct (prior_t_end Y P s); [apply protocol_loop_inv2; exact HI|exact HI].
+    - unfold simulate_protocol_time_course. destruct (has_errors Y P s); [exact HI|].
+      destruct (prior_t_end Y P s); [|exact HI].
+      destruct (if rel then _ else _); [exact HI|].
+      destruct (cmpb _ _ _); [exact HI|]. apply protocol_tc_loop_inv2; exact HI.
+    - destruct Hns.
+    - exact HI.
+    - apply (update_variables_inv2 Y P O yovr fx good s ov HI).
+    - apply clear_results_inv2.
+  Qed.
+
+  (** ** every history without a steady-state run *)
+  Theorem history_invariant ops : forall s, Forall no_steady ops -> Inv2 s -> Inv2 (run s ops).
+  Proof.
+    induction ops as [|o rest IH]; intros s Hns HI; [exact HI|].
+    inversion Hns as [|? ? Ho Hrest]; subst. cbn [Protocol.run]. apply IH; [exact Hrest|].
+    apply run_op_inv2; assumption.
+  Qed.
+
+  Theorem history_axis_increasing y0 p ops :
+    Forall no_steady ops -> incr (index_of Y P (run (sim_new Y P y0 p) ops)).
+  Proof.
+    intro Hns. pose proof (history_invariant ops _ Hns (sim_new_inv2 Y P y0 p)) as [HI _].
+    destruct (Inv_prior Y P _ HI) as (r & _ & _ & Hinc & _). exact Hinc.
+  Qed.
+
+  (** ** C14: a protocol IS the manual sequence  update_parameters ; simulate  per step *)
+  Definition never_fails : Prop := forall p t y t1, solve_ok p t y t1 = true.
+
+  Definition manual (t_start : Q) (n : nat) (rows : list (Q * U)) : list op :=
+    flat_map (fun r => [OUpdPar (snd r); OSim (t_start + fst r) (Some n)]) rows.
+
+  Lemma simulate_done s t_end k s2 :
+    never_fails -> Inv2 s -> has_errors Y P s = false ->
+    simulate s t_end (Some (S k)) = (s2, Done) ->
+    s_vars s2 <> None /\ has_errors Y P s2 = false /\ Inv2 s2.
+  Proof.
+    intros Hnf HI Herr E.
+    pose proof (simulate_inv2 Y P flow solve_ok fx good s t_end (Some (S k)) HI) as H2. rewrite E in H2. cbn [fst] in H2.
+    destruct (sim_step Y P flow solve_ok fx good s t_end (Some (S k)) k (proj1 HI) Herr eq_refl) as [Hle Hgt].
+    destruct (Qlt_le_dec (reached Y P s) t_end) as [L|L].
+    - destruct (Hgt L) as (_ & _ & E'). rewrite E' in E. rewrite Hnf in E. injection E as <-.
+      split; [|split; [exact Herr|exact H2]].
+      unfold after_ok. cbn [s_vars]. discriminate.
+    - rewrite (Hle L) in E. discriminate.
+  Qed.
+
+  Lemma protocol_loop_manual rows : forall s t_start k,
+    never_fails -> Inv2 s -> has_errors Y P s = false ->
+    protocol_loop s t_start (S k) rows = run_strict s (manual t_start (S k) rows).
+  Proof.
+    induction rows as [|[T u] rest IH]; intros s t_start k Hnf HI Herr; [reflexivity|].
+    cbn [Protocol.protocol_loop manual flat_map app Protocol.run_strict Protocol.run_op fst snd].
+    assert (HI1 : Inv2 (update_parameters s u)) by (apply update_parameters_inv2; exact HI).
+    assert (Herr1 : has_errors Y P (update_parameters s u) = false) by exact Herr.
+    destruct (simulate (update_parameters s u) (t_start + T) (Some (S k))) as [s2 o] eqn:E.
+    destruct o; try reflexivity.
+    destruct (simulate_done _ _ _ _ Hnf HI1 Herr1 E) as (Hv & Herr2 & HI2).
+    destruct (s_vars s2) eqn:Ev; [|congruence].
+    apply IH; assumption.
+  Qed.
+
+  Theorem protocol_is_manual s steps k :
+    never_fails -> Inv2 s -> has_errors Y P s = false ->
+    simulate_protocol Y P U flow solve_ok pupd fx s (make_protocol U steps) (S k)
+    = run_strict s (manual (reached Y P s) (S k) (make_protocol U steps)).
+  Proof.
+    intros Hnf HI Herr. unfold simulate_protocol. rewrite Herr.
+    destruct (Inv_prior Y P s (proj1 HI)) as (r & Hpr & _). rewrite Hpr, (reached_prior Y P s r Hpr).
+    apply protocol_loop_manual; assumption.
+  Qed.
+
+  (** the same for the time-course form: one  update_parameters ; simulate_time_course(window)  per step *)
+  Fixpoint manual_tc (t_start : Q) (full : list Q) (rows : list (Q * U)) : list op :=
+    match rows with
+    | [] => []
+    | (t_end, u) :: rest =>
+        OUpdPar u
+        :: OTc (filter (fun t => cmpb (f_win_lo fx) t t_start && cmpb (f_win_hi fx) t t_end) full)
+        :: manual_tc t_end full rest
+    end.
+
+  Lemma time_course_done s pts s2 :
+    never_fails -> Inv2 s -> has_errors Y P s = false -> pts <> [] ->
+    simulate_time_course s pts = (s2, Done) ->
+    s_vars s2 <> None /\ has_errors Y P s2 = false /\ Inv2 s2.
+  Proof.
+    intros Hnf HI Herr Hne E.
+    pose proof (simulate_time_course_inv2 Y P flow solve_ok fx good s pts HI) as H2. rewrite E in H2. cbn [fst] in H2.
+    destruct (tc_step Y P flow solve_ok fx good s pts (proj1 HI) Herr Hne) as [Hle Hgt].
+    destruct (Qlt_le_dec (reached Y P s) (lastq pts 0)) as [L|L].
+    - destruct (Hgt L) as (h & rest & _ & _ & _ & _ & E'). rewrite E' in E. unfold step_result in E.
+      destruct (incrb (h :: rest)); [|discriminate]. rewrite Hnf in E. injection E as <-.
+      split; [|split; [exact Herr|exact H2]].
+      unfold after_ok. cbn [s_vars]. discriminate.
+    - rewrite (Hle L) in E. discriminate.
+  Qed.
+
+  Lemma protocol_tc_loop_manual rows : forall s t_start full,
+    never_fails -> Inv2 s -> has_errors Y P s = false ->
+    protocol_tc_loop s t_start full rows = run_strict s (manual_tc t_start full rows).
+  Proof.
+    induction rows as [|[T u] rest IH]; intros s t_start full Hnf HI Herr; [reflexivity|].
+    cbn [Protocol.protocol_tc_loop manual_tc Protocol.run_strict Protocol.run_op].
+    assert (HI1 : Inv2 (update_parameters s u)) by (apply update_parameters_inv2; exact HI).
+    assert (Herr1 : has_errors Y P (update_parameters s u) = false) by exact Herr.
+    set (sel := filter _ full).
+    destruct (simulate_time_course (update_parameters s u) sel) as [s2 o] eqn:E.
+    destruct o; try reflexivity.
+    destruct sel as [|x sel'] eqn:Esel.
+    { (* an empty window raises IndexError: not Done *)
+      unfold Simulator.simulate_time_course in E. rewrite Herr1 in E.
+      destruct (prior_t_end Y P (update_parameters s u)); inversion E. }
+    assert (Hsne : x :: sel' <> []) by discriminate.
+    destruct (time_course_done (update_parameters s u) (x :: sel') s2 Hnf HI1 Herr1 Hsne E) as (Hv & Herr2 & HI2).
+    destruct (s_vars s2) eqn:Ev; [|congruence].
+    apply IH; assumption.
+  Qed.
+End ProtocolProofs.
+
+(** the facts of the tree the theorems are instantiated at (edited only together with a fix: commit) *)
+Definition pinned_facts : sim_facts :=
+  mkSimFacts FrameAbs CmpLe FrameAbs CmpLe CmpGe true true false true false 100 1000 CmpLe CmpGt CmpLe true true.
+
+Lemma good_of_pinned fx : fx = pinned_facts -> good_facts fx.
+Proof. intros ->. constructor; reflexivity. Qed.
+
+(** the facts of the unrepaired tree (frame mix-up, overrides not accumulated) -- for the refutations *)
+Definition unrepaired_facts : sim_facts :=
+  mkSimFacts FrameMixed CmpLe FrameMixed CmpLe CmpGe true true false true false 100 1000 CmpLe CmpGt CmpLe false true.
+
+Lemma not_incr_by_compute l : incrb l = false -> ~ incr l.
+Proof. intros H Hi. apply incr_incrb in Hi. congruence. Qed.
